@@ -189,7 +189,11 @@ def run_case(case, tier="quick"):
         base = run_model(_scaled_case(case, 1), tier)
         scaled = run_model(_scaled_case(case, c), tier)
         labels.add(f"scale:{c}")
-        sfacts = dict(facts, scale_factor=c)
+        small, large = (scaled, base) if c < 1 else (base, scaled)
+        nw = lambda r_: len(r_.solution["walks"]) if (r_.solved and not r_.crashed) else None
+        # known F8: the repetition caps are derived from the flow VALUES, so the instance with the smaller values is the one cut off
+        small_worse = bool(small.crashed) or (not small.solved and bool(large.solved)) or (nw(small) is not None and nw(large) is not None and nw(small) > nw(large))
+        sfacts = dict(facts, scale_factor=c, smaller_scale_worse=small_worse and not large.crashed)
         if base.crashed or scaled.crashed:
             cr = base.crashed or scaled.crashed
             return violation("scale_crash", f"float run crashed: {cr}", labels, facts=sfacts, site=cr.site)
